@@ -93,6 +93,21 @@ def worker(spec):
 
 def _worker(spec):
     prop = spec['prop']; cfg = spec['cfg']
+    # grammars needing more states than the default cap are rejected by construction (finding D16, C12's subject): not this property's business
+    keep = [i for i, j in enumerate(spec['grammars']) if not ref_lr1.beyond_default_cap(Grammar.from_json(j))]
+    dropped = len(spec['grammars']) - len(keep)
+    if dropped:
+        spec = dict(spec, grammars=[spec['grammars'][i] for i in keep])
+        if 'explicit_inputs' in spec: spec['explicit_inputs'] = [spec['explicit_inputs'][i] for i in keep]
+        if 'runtime_ctor' in spec: spec['runtime_ctor'] = [keep.index(i) for i in spec['runtime_ctor'] if i in keep]
+    if not spec['grammars']:
+        return {'counts': collections.Counter({'grammars_beyond_default_state_cap_left_to_C12': dropped}), 'viol': [], 'samples': [], 'distinct': [], 'incon': []}
+    out = _worker2(spec)
+    if dropped: out['counts']['grammars_beyond_default_state_cap_left_to_C12'] += dropped
+    return out
+
+def _worker2(spec):
+    prop = spec['prop']; cfg = spec['cfg']
     gs, tbs, inputs = prepare(spec)
     modes = cfg['modes']
     src = eg.emit_tu(gs, runtime_ctor=set(spec.get('runtime_ctor', ())))
@@ -567,17 +582,18 @@ def shunting_shape(g, toks, cols):
     return out[0] if len(out) == 1 else None
 
 def is_pure_binary(g):
+    """E -> E op E (each operator once) | atom | ( E ) with pairwise different terms and no explicit rule precedence"""
     if len(g.nts) != 1 or any(r.prec for r in g.rules): return False
-    ok = True; seen_ops = set()
+    ops = []; atoms = []; parens = []
     for r in g.rules:
         k = [s[0] for s in r.rhs]
-        if k == ['t']: continue
-        if k == ['n', 't', 'n']:
-            if r.rhs[1][1] in seen_ops: return False
-            seen_ops.add(r.rhs[1][1]); continue
-        if k == ['t', 'n', 't']: continue
-        return False
-    return bool(seen_ops)
+        if k == ['t']: atoms.append(r.rhs[0][1])
+        elif k == ['n', 't', 'n']: ops.append(r.rhs[1][1])
+        elif k == ['t', 'n', 't']: parens.append((r.rhs[0][1], r.rhs[2][1]))
+        else: return False
+    if len(atoms) != 1 or len(parens) > 1 or not ops: return False
+    used = ops + atoms + [t for p in parens for t in p]
+    return len(set(used)) == len(used)
 
 def judge_c05(spec, gs, tbs, inputs, diags, dumps, maps, tdiffs, byk, jobs, info, out):
     C = out['counts']
